@@ -320,6 +320,10 @@ impl TheDrawFont {
                 None => char_lookup_table.extend(u16::to_le_bytes(0xFFFF)),
             }
         }
+        if font_data.len() > u16::MAX as usize {
+            // block size and glyph offsets are 16 bit in the file format
+            return Err(TdfError::FontDataTooLarge(font_data.len()).into());
+        }
         result.extend(u16::to_le_bytes(font_data.len() as u16));
         result.extend(char_lookup_table);
         result.extend(font_data);
@@ -478,6 +482,7 @@ pub enum TdfError {
     LetterSpaceTooMuch(i32),
     IdLengthMismatch(u8),
     FontIndicatorMismatch,
+    FontDataTooLarge(usize),
 }
 
 impl std::fmt::Display for TdfError {
@@ -497,6 +502,7 @@ impl std::fmt::Display for TdfError {
                 write!(f, "letter space is max {MAX_LETTER_SPACE} was {spaces}")
             }
             TdfError::IdLengthMismatch(len) => write!(f, "id length mismatch {len} should be 19."),
+            TdfError::FontDataTooLarge(len) => write!(f, "glyph data of a font is {len} bytes, the format allows 65535"),
             TdfError::FontIndicatorMismatch => {
                 write!(f, "font indicator mismatch should be 0x55AA00FF.")
             }
